@@ -145,6 +145,7 @@ func C15(r *ev.Run) {
 	r.Floor("proposals-in-higher-view", 300)
 	r.Floor("proposals-with-several-txs", 2000)
 	r.Floor("primary-blocks-checked", 5000)
+	r.Floor("primary-handovers-checked", 2000)
 	r.Floor("primary-headers-checked", 5000)
 	r.Floor("primary-preheaders-checked", 1000)
 	r.Floor("proposals-after-backup-role-in-same-height", 50)
